@@ -76,11 +76,12 @@ def entry_frame(I: Interp, finfo: FuncInfo, con: Contract, fnode):
             v = SV(z3.Const(p.arg, Val), ty)
             st.assume_wt(v)
         fr.locals[p.arg] = v
-    if a.vararg or a.kwarg:
-        if a.kwarg and a.kwarg.arg in con.types:
-            pass
-        else:
-            raise Refuse(f"*args/**kwargs in function under contract {finfo.key}")
+    if a.vararg:
+        raise Refuse(f"*args in function under contract {finfo.key}")
+    if a.kwarg:
+        from .calls import PKwargs
+        fr.locals[a.kwarg.arg] = PKwargs({})  # verified for calls without extra keyword arguments
+        st.log.append(f"{finfo.key}: **{a.kwarg.arg} taken as empty")
     return fr
 
 
